@@ -22,6 +22,13 @@ structure Inv (a : Arena) : Prop where
   nodup : a.freeList.Nodup
   count_ge : (blocksOf a.slots).length + (if a.pending then 1 else 0) ≤ a.count
   pend_head : a.pending = true → a.freeList ≠ []
+  free_len : a.freeList.length + (blocksOf a.slots).length = a.slots.length     -- every slot without an object is on the free list
+  count_le : a.count ≤ a.slots.length
+
+theorem blocksOf_replicate (n : Nat) : blocksOf (List.replicate n (none : Slot)) = [] := by
+  induction n with
+  | zero => rfl
+  | succ n ih => simp [List.replicate_succ, blocksOf] at ih ⊢
 
 theorem set_split (ss : List Slot) (i : Nat) (v : Slot) (old : Slot) (h : ss[i]? = some old) :
     ∃ pre post, ss = pre ++ old :: post ∧ ss.set i v = pre ++ v :: post := by
@@ -62,7 +69,7 @@ theorem create_spec (n : Nat) (l : Ledger) (f : List Nat) (m : Nat) (h : Holds l
           refine ⟨fun l3 he => by simp at he, fun a l3 he => ?_⟩
           simp only [Prod.mk.injEq, Option.some.injEq] at he
           obtain ⟨rfl, rfl⟩ := he
-          refine ⟨⟨?_, List.nodup_range, ?_, by simp⟩, ?_, by simp [size]⟩
+          refine ⟨⟨?_, List.nodup_range, ?_, by simp, by simp [blocksOf_replicate], by simp⟩, ?_, by simp [size]⟩
           · intro i hi
             have : i < n := by simpa using hi
             simp [this]
@@ -73,13 +80,22 @@ theorem create_spec (n : Nat) (l : Ledger) (f : List Nat) (m : Nat) (h : Holds l
 theorem construct_spec (x : Int) (a : Arena) (l : Ledger) (f : List Nat) (m : Nat) (hi : a.Inv)
     (h : Holds l a.owned f m) :
     (construct x a l).2.2.1.Inv ∧ Holds (construct x a l).2.2.2 (construct x a l).2.2.1.owned f m ∧
-    ((construct x a l).1 = .ub → a.freeList = []) := by
+    (construct x a l).1 ≠ .ub := by
   unfold construct
   split
   · exact ⟨hi, h, by simp⟩
   · rename_i hfull
     cases hfl : a.freeList with
-    | nil => exact ⟨hi, h, fun _ => rfl⟩
+    | nil =>
+      -- free-list non-exhaustion: an empty free list means every slot holds an object, so m_objectCount = m_blockSize
+      exfalso
+      have h1 := hi.free_len
+      have h2 := hi.count_ge
+      have h3 := hi.count_le
+      rw [hfl] at h1
+      simp only [List.length_nil, Nat.zero_add] at h1
+      have : a.count = a.size := by unfold size; omega
+      exact hfull this
     | cons i rest =>
       have hnone := hi.free_none i (by simp [hfl])
       have hfn := hi.free_none; rw [hfl] at hfn
@@ -90,13 +106,25 @@ theorem construct_spec (x : Int) (a : Arena) (l : Ledger) (f : List Nat) (m : Na
         cases oe with
         | none =>
           dsimp only
-          refine ⟨⟨hfn, hnd, ?_, by simp⟩, holds_alloc_none h ha, by simp⟩
-          dsimp only
-          cases hp : a.pending <;> simp [hp] at hc ⊢ <;> omega
+          have hcl := hi.count_le
+          have hfl2 := hi.free_len
+          rw [hfl] at hfl2
+          refine ⟨⟨hfn, hnd, ?_, by simp, by simpa using hfl2, ?_⟩, holds_alloc_none h ha, by simp⟩
+          · dsimp only
+            cases hp : a.pending <;> simp [hp] at hc ⊢ <;> omega
+          · dsimp only
+            have : a.count ≠ a.slots.length := hfull
+            cases hp : a.pending <;> simp [hp] <;> omega
         | some e =>
           dsimp only
           obtain ⟨pre, post, hs1, hs2⟩ := set_split a.slots i (some (x, e)) none hnone
-          refine ⟨⟨?_, (List.nodup_cons.mp hnd).2, ?_, by simp⟩, ?_, by simp⟩
+          have hlen : (blocksOf (a.slots.set i (some (x, e)))).length = (blocksOf a.slots).length + 1 := by
+            rw [hs2, hs1]
+            simp [blocksOf, List.filterMap_append]; omega
+          have hcl := hi.count_le
+          have hfl2 := hi.free_len
+          rw [hfl] at hfl2
+          refine ⟨⟨?_, (List.nodup_cons.mp hnd).2, ?_, by simp, ?_, ?_⟩, ?_, by simp⟩
           · intro j hj
             have hji : j ≠ i := by
               intro heq; subst heq; exact (List.nodup_cons.mp hnd).1 hj
@@ -104,11 +132,15 @@ theorem construct_spec (x : Int) (a : Arena) (l : Ledger) (f : List Nat) (m : Na
             rw [List.getElem?_set_ne (Ne.symm hji)]
             exact hfn j (by simp [hj])
           · dsimp only
-            have hlen : (blocksOf (a.slots.set i (some (x, e)))).length = (blocksOf a.slots).length + 1 := by
-              rw [hs2, hs1]
-              simp [blocksOf, List.filterMap_append]; omega
             rw [hlen]
             cases hp : a.pending <;> simp [hp] at hc ⊢ <;> omega
+          · dsimp only
+            rw [hlen, List.length_set]
+            simp only [List.length_cons] at hfl2; omega
+          · dsimp only
+            rw [List.length_set]
+            have : a.count ≠ a.slots.length := hfull
+            cases hp : a.pending <;> simp [hp] <;> omega
           · refine holds_congr (holds_alloc h ha) (fun b => ?_)
             simp only [owned, objBlocks]
             rw [hs2, hs1]
@@ -133,7 +165,12 @@ theorem destroyObject_spec (i : Nat) (a : Arena) (l : Ledger) (f : List Nat) (m 
       have hc := hi.count_ge
       have hnotfree : i ∉ a.freeList := by
         intro hm; have := hi.free_none i hm; rw [hs] at this; simp at this
-      refine ⟨⟨?_, List.nodup_cons.mpr ⟨hnotfree, hi.nodup⟩, ?_, by simp⟩, ?_, by simp⟩
+      have hlen0 : (blocksOf a.slots).length = (blocksOf (a.slots.set i none)).length + 1 := by
+        rw [hs2, hs1]
+        simp [blocksOf, List.filterMap_append]; omega
+      refine ⟨⟨?_, List.nodup_cons.mpr ⟨hnotfree, hi.nodup⟩, ?_, by simp, by
+          have := hi.free_len; dsimp only; rw [List.length_set]; simp only [List.length_cons]; omega, by
+          have := hi.count_le; dsimp only; rw [List.length_set]; omega⟩, ?_, by simp⟩
       · intro j hj
         dsimp only at hj ⊢
         cases List.mem_cons.mp hj with
